@@ -149,6 +149,9 @@ SBuf::rawAppendFinish(const char *start, size_type actualSize)
 
     size_type newSize = length() + actualSize;
     Must3(newSize <= min(maxSize, store_->capacity-off_), "raw append fits", Here());
+    if (!actualSize)
+        return; // canAppend() accepts empty appends anywhere; the blob may end beyond us
+
     len_ = newSize;
     store_->size = off_ + newSize;
 }
